@@ -78,6 +78,11 @@ impl Searcher {
         max_depth: u8,
         time_limit: Option<Duration>,
     ) -> (i32, Option<Move>) {
+        #[cfg(flounder_verif)]
+        if verif::dry_run(max_depth, time_limit) {
+            return (0, None);
+        }
+
         self.timer.start(time_limit);
         self.history.age();
 
@@ -156,6 +161,11 @@ impl Searcher {
     ) -> SearchResult {
         self.timer.increment_nodes();
         let original_alpha = alpha;
+
+        #[cfg(flounder_verif)]
+        if verif::repetition_trace_on() {
+            verif::trace_repetition(board, ply, self.is_draw_by_repetition(board));
+        }
 
         if ply > 0 && self.is_draw_by_repetition(board) {
             return SearchResult::new(0, None);
@@ -246,6 +256,9 @@ impl Searcher {
             self.move_generator.generate_quiescence_moves(board)
         };
 
+        #[cfg(flounder_verif)]
+        verif::trace_quiescence(board, currently_in_check, &moves);
+
         self.order_captures(&mut moves, board);
 
         // Checkmate detection
@@ -305,6 +318,8 @@ impl Searcher {
 
         match entry.bounds {
             Bounds::Exact => {
+                #[cfg(flounder_verif)]
+                verif::note_tt_cutoff(entry.depth, depth);
                 return Some(SearchResult::new(entry.eval, entry.best_move));
             }
             Bounds::Lower => {
@@ -316,6 +331,8 @@ impl Searcher {
         }
 
         if alpha >= beta {
+            #[cfg(flounder_verif)]
+            verif::note_tt_cutoff(entry.depth, depth);
             return Some(SearchResult::new(entry.eval, entry.best_move));
         }
 
@@ -431,6 +448,141 @@ impl Searcher {
     /// Forgets the recorded game positions
     pub fn clear_positions(&mut self) {
         self.repetition.clear();
+    }
+}
+
+/// Verification hooks: entry points and observation points for the model-checking
+/// harness. They call the real search functions and record the values the real
+/// code computed; none of them re-implements search logic.
+#[cfg(flounder_verif)]
+#[allow(dead_code)]
+impl Searcher {
+    /// One fixed-depth search (a single `search_position`, no iterative deepening)
+    pub fn verif_search_fixed(&mut self, board: &Board, depth: u8) -> (i32, Option<Move>) {
+        self.timer.start(None);
+        let result = self.search_position(board, depth);
+        (result.score, result.best_move)
+    }
+
+    /// The real quiescence search with the full window. `budget` is a time limit;
+    /// under the node clock it is a node cap (check `timer::verif::first_stop()`).
+    pub fn verif_quiesce(&mut self, board: &Board, budget: Option<Duration>) -> i32 {
+        self.timer.start(budget);
+        self.search_until_quiet(board, NEGATIVE_INFINITY, INFINITY)
+    }
+
+    pub fn verif_nodes(&self) -> u64 {
+        self.timer.nodes()
+    }
+
+    pub fn verif_hash(&self, board: &Board) -> u64 {
+        self.zobrist.hash(board)
+    }
+
+    pub fn verif_repetition_len(&self) -> usize {
+        self.repetition.len()
+    }
+
+    pub fn verif_is_draw_by_repetition(&self, board: &Board) -> bool {
+        self.is_draw_by_repetition(board)
+    }
+
+    pub fn verif_tt_entries(&self) -> Vec<crate::transposition::Entry> {
+        self.transposition_table.verif_entries()
+    }
+}
+
+#[cfg(flounder_verif)]
+#[allow(dead_code)]
+pub mod verif {
+    use crate::board::Board;
+    use crate::moves::Move;
+    use std::cell::{Cell, RefCell};
+    use std::time::Duration;
+
+    thread_local! {
+        static DRY_RUN: Cell<bool> = const { Cell::new(false) };
+        static LAST_GO: Cell<Option<(u8, Option<Duration>)>> = const { Cell::new(None) };
+        static TT_CUTOFFS: Cell<u64> = const { Cell::new(0) };
+        static TT_DEEPER_CUTOFFS: Cell<u64> = const { Cell::new(0) };
+        static QUIESCENCE_TRACE: RefCell<Option<Vec<(Board, bool, Vec<Move>)>>> =
+            const { RefCell::new(None) };
+        static REPETITION_TRACE: RefCell<Option<Vec<(Board, u8, bool)>>> =
+            const { RefCell::new(None) };
+    }
+
+    /// With dry run on, `find_best_move` only records its (max_depth, time_limit)
+    pub fn set_dry_run(on: bool) {
+        DRY_RUN.with(|c| c.set(on));
+    }
+
+    pub fn last_go() -> Option<(u8, Option<Duration>)> {
+        LAST_GO.with(|c| c.get())
+    }
+
+    pub fn dry_run(max_depth: u8, time_limit: Option<Duration>) -> bool {
+        LAST_GO.with(|c| c.set(Some((max_depth, time_limit))));
+        DRY_RUN.with(|c| c.get())
+    }
+
+    /// (results served from the table, of which from an entry deeper than requested)
+    pub fn tt_cutoffs() -> (u64, u64) {
+        (TT_CUTOFFS.with(|c| c.get()), TT_DEEPER_CUTOFFS.with(|c| c.get()))
+    }
+
+    pub fn reset_tt_cutoffs() {
+        TT_CUTOFFS.with(|c| c.set(0));
+        TT_DEEPER_CUTOFFS.with(|c| c.set(0));
+    }
+
+    pub fn note_tt_cutoff(entry_depth: u8, requested_depth: u8) {
+        TT_CUTOFFS.with(|c| c.set(c.get() + 1));
+        if entry_depth > requested_depth {
+            TT_DEEPER_CUTOFFS.with(|c| c.set(c.get() + 1));
+        }
+    }
+
+    /// Starts (Some(empty)) or stops (None) recording the move list of every quiescence node
+    pub fn set_quiescence_trace(on: bool) {
+        QUIESCENCE_TRACE.with(|t| *t.borrow_mut() = if on { Some(Vec::new()) } else { None });
+    }
+
+    pub fn take_quiescence_trace() -> Vec<(Board, bool, Vec<Move>)> {
+        QUIESCENCE_TRACE.with(|t| match t.borrow_mut().as_mut() {
+            Some(v) => std::mem::take(v),
+            None => Vec::new(),
+        })
+    }
+
+    pub fn trace_quiescence(board: &Board, in_check: bool, moves: &[Move]) {
+        QUIESCENCE_TRACE.with(|t| {
+            if let Some(v) = t.borrow_mut().as_mut() {
+                v.push((*board, in_check, moves.to_vec()));
+            }
+        });
+    }
+
+    pub fn set_repetition_trace(on: bool) {
+        REPETITION_TRACE.with(|t| *t.borrow_mut() = if on { Some(Vec::new()) } else { None });
+    }
+
+    pub fn repetition_trace_on() -> bool {
+        REPETITION_TRACE.with(|t| t.borrow().is_some())
+    }
+
+    pub fn take_repetition_trace() -> Vec<(Board, u8, bool)> {
+        REPETITION_TRACE.with(|t| match t.borrow_mut().as_mut() {
+            Some(v) => std::mem::take(v),
+            None => Vec::new(),
+        })
+    }
+
+    pub fn trace_repetition(board: &Board, ply: u8, is_draw: bool) {
+        REPETITION_TRACE.with(|t| {
+            if let Some(v) = t.borrow_mut().as_mut() {
+                v.push((*board, ply, is_draw));
+            }
+        });
     }
 }
 
